@@ -574,7 +574,12 @@ class ConcModel(Comp):
         if r is None:
             return "IMPL:" + out
         if hooked_err:
-            return "dangling=%d" % min(1, r["dangling"])
+            # the freed arena is zeroed and kept by the driver: the dangling pointer makes the thread's errors disappear
+            if r["verdict"] == "ok":
+                return "dangling=0"
+            if re.match(r"DIFF r\d+t\d+o\d+:E:noerr!=e\d", r["verdict"]) and r["dangling"]:
+                return "dangling=1"
+            return "IMPL:" + out
         if r["verdict"] != "ok":
             return "IMPL:" + out
         return "dangling=%d leak=%d lockviol=%d res=%s" % (r["dangling"], r["leak"][0], min(1, r["lock"][1]), r["res"])
